@@ -588,4 +588,1220 @@ theorem removeActorBranchFrom_eq_filter (q : List Change) (a : Bytes) (n : Nat) 
 theorem removeActorBranchFrom_sublist (q : List Change) (a : Bytes) (n : Nat) :
     (removeActorBranchFrom q a n).Sublist q := List.filter_sublist
 
+/-! ## §5 `collectBatch` -/
+
+/-- what the `ChangeBatch` being filled satisfies relative to the document -/
+structure BatchOK (d : Doc) (batch : List Change) : Prop where
+  hashNodup : (hashes batch).Nodup
+  fresh : ∀ c ∈ batch, c.hash ∉ hashes d.applied ∧ c.hash ∉ hashes d.queue
+  seqNodup : (actorSeqs batch).Nodup
+  seqFresh : ∀ c ∈ batch, (c.actor, c.seq) ∉ actorSeqs d.applied ∧ (c.actor, c.seq) ∉ actorSeqs d.queue
+
+theorem BatchOK.nil (d : Doc) : BatchOK d [] :=
+  ⟨by simp, by simp, by simp [actorSeqs], by simp⟩
+
+theorem collectBatch_ok {d : Doc} : ∀ {cs batch : List Change} {q b' : List Change},
+    BatchOK d batch → collectBatch d cs batch = (q, .ok b') →
+    BatchOK d b' ∧ q = d.queue ∧ (∃ new, b' = batch ++ new ∧ ∀ c ∈ new, c ∈ cs) ∧
+      (∀ c ∈ cs, c.hash ∈ hashes d.applied ∨ c.hash ∈ hashes d.queue ∨ c.hash ∈ hashes b')
+  | [], batch, q, b', hb, h => by
+    simp only [collectBatch, Prod.mk.injEq, Except.ok.injEq] at h
+    obtain ⟨rfl, rfl⟩ := h
+    exact ⟨hb, rfl, ⟨[], by simp, by simp⟩, by simp⟩
+  | c :: cs, batch, q, b', hb, h => by
+    simp only [collectBatch] at h
+    split at h
+    · -- already applied or queued
+      rename_i hskip
+      obtain ⟨h1, h2, ⟨new, h3, h4⟩, h5⟩ := collectBatch_ok hb h
+      refine ⟨h1, h2, ⟨new, h3, fun x hx => List.mem_cons_of_mem _ (h4 x hx)⟩, ?_⟩
+      intro x hx
+      rcases List.mem_cons.mp hx with rfl | hx
+      · simp only [Bool.or_eq_true, hasChange_iff, queueHas_iff] at hskip
+        rcases hskip with hs | hs
+        · exact .inl hs
+        · exact .inr (.inl hs)
+      · exact h5 x hx
+    · rename_i hnskip
+      simp only [Bool.or_eq_true, hasChange_iff, queueHas_iff, not_or] at hnskip
+      split at h
+      · simp at h
+      · rename_i hnas
+        split at h
+        · simp at h
+        · rename_i hnqs
+          split at h
+          · -- already in the batch
+            rename_i hinb
+            obtain ⟨h1, h2, ⟨new, h3, h4⟩, h5⟩ := collectBatch_ok hb h
+            refine ⟨h1, h2, ⟨new, h3, fun x hx => List.mem_cons_of_mem _ (h4 x hx)⟩, ?_⟩
+            intro x hx
+            rcases List.mem_cons.mp hx with rfl | hx
+            · right; right
+              rw [h3, hashes_append]
+              exact List.mem_append_left _ (any_hash_iff.mp hinb)
+            · exact h5 x hx
+          · rename_i hninb
+            split at h
+            · simp at h
+            · rename_i hnbs
+              have hb' : BatchOK d (batch ++ [c]) := by
+                have hnas' := hasActorSeq_false (Bool.eq_false_iff.mpr hnas)
+                have hnqs' : (c.actor, c.seq) ∉ actorSeqs d.queue :=
+                  fun hm => hnqs (queueHasActorSeq_iff.mpr hm)
+                have hnbs' : (c.actor, c.seq) ∉ actorSeqs batch :=
+                  fun hm => hnbs (queueHasActorSeq_iff.mpr hm)
+                have hninb' : c.hash ∉ hashes batch := fun hm => hninb (any_hash_iff.mpr hm)
+                refine ⟨?_, ?_, ?_, ?_⟩
+                · rw [hashes_append, List.nodup_append]
+                  refine ⟨hb.hashNodup, by simp [hashes], ?_⟩
+                  intro x hx y hy hxy
+                  simp only [hashes, List.map_cons, List.map_nil, List.mem_singleton] at hy
+                  subst hy; subst hxy
+                  exact hninb' hx
+                · intro x hx
+                  rcases List.mem_append.mp hx with hx | hx
+                  · exact hb.fresh x hx
+                  · simp only [List.mem_singleton] at hx; subst hx; exact hnskip
+                · rw [actorSeqs_append, List.nodup_append]
+                  refine ⟨hb.seqNodup, by simp [actorSeqs], ?_⟩
+                  intro x hx y hy hxy
+                  simp only [actorSeqs, List.map_cons, List.map_nil, List.mem_singleton] at hy
+                  subst hy; subst hxy
+                  exact hnbs' hx
+                · intro x hx
+                  rcases List.mem_append.mp hx with hx | hx
+                  · exact hb.seqFresh x hx
+                  · simp only [List.mem_singleton] at hx; subst hx; exact ⟨hnas', hnqs'⟩
+              obtain ⟨h1, h2, ⟨new, h3, h4⟩, h5⟩ := collectBatch_ok hb' h
+              refine ⟨h1, h2, ⟨c :: new, by simp [h3], ?_⟩, ?_⟩
+              · intro x hx
+                rcases List.mem_cons.mp hx with rfl | hx
+                · exact List.mem_cons_self
+                · exact List.mem_cons_of_mem _ (h4 x hx)
+              · intro x hx
+                rcases List.mem_cons.mp hx with rfl | hx
+                · right; right
+                  rw [h3]; simp [hashes]
+                · exact h5 x hx
+
+/-- on the error paths the queue is the old queue or the old queue pruned by
+    `remove_actor_branch_from` (§6-D4: the pruning happens although the call fails) -/
+theorem collectBatch_err {d : Doc} : ∀ {cs batch : List Change} {q : List Change} {e : ApplyErr},
+    collectBatch d cs batch = (q, .error e) →
+    ∃ c ∈ cs, e = .duplicateSeq c.seq c.actor ∧
+      (q = d.queue ∨ q = removeActorBranchFrom d.queue c.actor (c.seq + 1))
+  | [], batch, q, e, h => by simp [collectBatch] at h
+  | c :: cs, batch, q, e, h => by
+    simp only [collectBatch] at h
+    have lift : (∃ x ∈ cs, e = .duplicateSeq x.seq x.actor ∧
+        (q = d.queue ∨ q = removeActorBranchFrom d.queue x.actor (x.seq + 1))) →
+        ∃ x ∈ c :: cs, e = .duplicateSeq x.seq x.actor ∧
+        (q = d.queue ∨ q = removeActorBranchFrom d.queue x.actor (x.seq + 1)) :=
+      fun ⟨x, hx, hh⟩ => ⟨x, List.mem_cons_of_mem _ hx, hh⟩
+    split at h
+    · exact lift (collectBatch_err h)
+    · split at h
+      · simp only [Prod.mk.injEq, Except.error.injEq] at h
+        exact ⟨c, List.mem_cons_self, h.2.symm, .inr h.1.symm⟩
+      · split at h
+        · simp only [Prod.mk.injEq, Except.error.injEq] at h
+          exact ⟨c, List.mem_cons_self, h.2.symm, .inl h.1.symm⟩
+        · split at h
+          · exact lift (collectBatch_err h)
+          · split at h
+            · simp only [Prod.mk.injEq, Except.error.injEq] at h
+              exact ⟨c, List.mem_cons_self, h.2.symm, .inl h.1.symm⟩
+            · exact lift (collectBatch_err h)
+
+/-! ## §6 Kahn's algorithm -/
+
+theorem isSat_iff {d : Doc} {rel : List Change} {x : Change} :
+    isSat d rel x = true ↔ ∀ dep ∈ x.deps, dep ∈ hashes d.applied ∨ dep ∈ hashes rel := by
+  simp only [isSat, List.all_eq_true, Bool.or_eq_true, hasChange_iff, any_hash_iff]
+
+theorem isSat_mono {d : Doc} {rel rel' : List Change} {x : Change}
+    (hsub : ∀ h ∈ hashes rel, h ∈ hashes rel') (h : isSat d rel x = true) : isSat d rel' x = true := by
+  rw [isSat_iff] at *
+  intro dep hd
+  rcases h dep hd with h | h
+  · exact .inl h
+  · exact .inr (hsub _ h)
+
+theorem any_hash_false_iff {l : List Change} {h : Hash} :
+    l.any (fun r => r.hash == h) = false ↔ h ∉ hashes l := by
+  rw [← any_hash_iff]; simp
+
+/-- the changes whose last unsatisfied dep was `c` (body of the `waiting_on.remove(&hash)` loop) -/
+def newlyReady (d : Doc) (pool : List Change) (c : Change) (rest done : List Change) : List Change :=
+  pool.filter (fun x =>
+    x.deps.contains c.hash && isSat d (done ++ [c]) x && !isSat d done x
+      && !((done ++ [c]).any (fun r => r.hash == x.hash)) && !(rest.any (fun r => r.hash == x.hash)))
+
+theorem kahnLoop_cons (d : Doc) (pool : List Change) (fuel : Nat) (c : Change) (rest done : List Change) :
+    kahnLoop d pool (fuel + 1) (c :: rest) done
+      = kahnLoop d pool fuel (rest ++ newlyReady d pool c rest done) (done ++ [c]) := rfl
+
+theorem mem_newlyReady {d : Doc} {pool : List Change} {c : Change} {rest done : List Change} {x : Change} :
+    x ∈ newlyReady d pool c rest done ↔
+      x ∈ pool ∧ c.hash ∈ x.deps ∧ isSat d (done ++ [c]) x = true ∧ isSat d done x = false ∧
+        x.hash ∉ hashes (done ++ [c]) ∧ x.hash ∉ hashes rest := by
+  simp only [newlyReady, List.mem_filter, Bool.and_eq_true, List.contains_iff_mem, Bool.not_eq_true',
+    any_hash_false_iff]
+  constructor
+  · rintro ⟨h0, ⟨⟨⟨h1, h2⟩, h3⟩, h4⟩, h5⟩; exact ⟨h0, h1, h2, h3, h4, h5⟩
+  · rintro ⟨h0, h1, h2, h3, h4, h5⟩; exact ⟨h0, ⟨⟨⟨h1, h2⟩, h3⟩, h4⟩, h5⟩
+
+structure KInv (d : Doc) (pool ready done : List Change) : Prop where
+  sub : ∀ x ∈ done ++ ready, x ∈ pool
+  nodup : (done ++ ready).Nodup
+  readySat : ∀ x ∈ ready, isSat d done x = true
+  closed : DepsClosed (d.applied ++ done)
+  complete : ∀ x ∈ pool, isSat d done x = true → x ∈ done ∨ x ∈ ready
+
+theorem KInv.step {d : Doc} {pool : List Change} (hpn : (hashes pool).Nodup)
+    {c : Change} {rest done : List Change} (k : KInv d pool (c :: rest) done) :
+    KInv d pool (rest ++ newlyReady d pool c rest done) (done ++ [c]) := by
+  have hcpool : c ∈ pool := k.sub c (by simp)
+  have hmono : ∀ h ∈ hashes done, h ∈ hashes (done ++ [c]) := by
+    intro h hh; rw [hashes_append]; exact List.mem_append_left _ hh
+  have heq : (done ++ [c]) ++ (rest ++ newlyReady d pool c rest done)
+      = (done ++ c :: rest) ++ newlyReady d pool c rest done := by simp
+  refine ⟨?_, ?_, ?_, ?_, ?_⟩
+  · intro x hx
+    rw [heq] at hx
+    rcases List.mem_append.mp hx with hx | hx
+    · exact k.sub x hx
+    · exact (mem_newlyReady.mp hx).1
+  · rw [heq, List.nodup_append]
+    refine ⟨k.nodup, nodup_filter _ (nodup_of_hashes hpn), ?_⟩
+    intro a ha b hb hab
+    subst hab
+    obtain ⟨_, _, _, _, h4, h5⟩ := mem_newlyReady.mp hb
+    have : a ∈ (done ++ [c]) ++ rest := by simpa using ha
+    rcases List.mem_append.mp this with h | h
+    · exact h4 (mem_hashes_of_mem h)
+    · exact h5 (mem_hashes_of_mem h)
+  · intro x hx
+    rcases List.mem_append.mp hx with hx | hx
+    · exact isSat_mono hmono (k.readySat x (List.mem_cons_of_mem _ hx))
+    · exact (mem_newlyReady.mp hx).2.2.1
+  · rw [← List.append_assoc, depsClosed_snoc]
+    refine ⟨k.closed, ?_⟩
+    intro dep hd
+    have := isSat_iff.mp (k.readySat c List.mem_cons_self) dep hd
+    rw [hashes_append]
+    exact List.mem_append.mpr this
+  · intro x hx hsat
+    by_cases hold : isSat d done x = true
+    · rcases k.complete x hx hold with h | h
+      · exact .inl (List.mem_append_left _ h)
+      · rcases List.mem_cons.mp h with rfl | h
+        · exact .inl (by simp)
+        · exact .inr (List.mem_append_left _ h)
+    · by_cases h4 : x.hash ∈ hashes (done ++ [c])
+      · obtain ⟨y, hy, hyx⟩ := mem_hashes.mp h4
+        have hyp : y ∈ pool := k.sub y (by
+          rcases List.mem_append.mp hy with h | h
+          · exact List.mem_append_left _ h
+          · simp only [List.mem_singleton] at h; subst h; simp)
+        have := hash_inj hpn hyp hx hyx
+        subst this
+        exact .inl hy
+      · by_cases h5 : x.hash ∈ hashes rest
+        · obtain ⟨y, hy, hyx⟩ := mem_hashes.mp h5
+          have hyp : y ∈ pool := k.sub y (by simp [hy])
+          have := hash_inj hpn hyp hx hyx
+          subst this
+          exact .inr (List.mem_append_left _ hy)
+        · right
+          apply List.mem_append_right
+          rw [mem_newlyReady]
+          refine ⟨hx, ?_, hsat, by simpa using hold, h4, h5⟩
+          -- the only hash that became available is `c.hash`
+          have hns : ¬ ∀ dep ∈ x.deps, dep ∈ hashes d.applied ∨ dep ∈ hashes done :=
+            fun h => hold (isSat_iff.mpr h)
+          have hs := isSat_iff.mp hsat
+          apply Classical.byContradiction
+          intro hcx
+          apply hns
+          intro dep hd
+          rcases hs dep hd with h | h
+          · exact .inl h
+          · rw [hashes_append] at h
+            rcases List.mem_append.mp h with h | h
+            · exact .inr h
+            · simp only [hashes, List.map_cons, List.map_nil, List.mem_singleton] at h
+              subst h
+              exact (hcx hd).elim
+
+theorem kahnLoop_spec {d : Doc} {pool : List Change} (hpn : (hashes pool).Nodup) :
+    ∀ (fuel : Nat) (ready done : List Change), KInv d pool ready done →
+      pool.length + 1 ≤ fuel + done.length →
+      (∃ more, kahnLoop d pool fuel ready done = done ++ more) ∧
+      (∀ x ∈ kahnLoop d pool fuel ready done, x ∈ pool) ∧
+      (kahnLoop d pool fuel ready done).Nodup ∧
+      DepsClosed (d.applied ++ kahnLoop d pool fuel ready done) ∧
+      (∀ x ∈ pool, isSat d (kahnLoop d pool fuel ready done) x = true →
+        x ∈ kahnLoop d pool fuel ready done) := by
+  intro fuel
+  induction fuel with
+  | zero =>
+    intro ready done k hf
+    have hdn : done.Nodup := (List.nodup_append.mp k.nodup).1
+    have := nodup_subset_length_le hdn (fun x hx => k.sub x (List.mem_append_left _ hx))
+    omega
+  | succ fuel ih =>
+    intro ready done k hf
+    cases ready with
+    | nil =>
+      have hk : kahnLoop d pool (fuel + 1) [] done = done := by simp [kahnLoop]
+      rw [hk]
+      refine ⟨⟨[], by simp⟩, fun x hx => k.sub x (by simpa using hx), by simpa using k.nodup,
+        k.closed, ?_⟩
+      intro x hx hs
+      rcases k.complete x hx hs with h | h
+      · exact h
+      · cases h
+    | cons c rest =>
+      rw [kahnLoop_cons]
+      have k' := k.step hpn
+      have hf' : pool.length + 1 ≤ fuel + (done ++ [c]).length := by
+        simp only [List.length_append, List.length_cons, List.length_nil]; omega
+      obtain ⟨⟨more, h1⟩, h2, h3, h4, h5⟩ := ih _ _ k' hf'
+      refine ⟨⟨c :: more, by rw [h1]; simp⟩, h2, h3, h4, h5⟩
+
+theorem KInv.init {d : Doc} {pool : List Change} (hpn : (hashes pool).Nodup) (hc : DepsClosed d.applied) :
+    KInv d pool (pool.filter (fun x => x.deps.all (fun dep => d.hasChange dep))) [] := by
+  refine ⟨?_, ?_, ?_, by simpa using hc, ?_⟩
+  · intro x hx
+    simp only [List.nil_append, List.mem_filter] at hx
+    exact hx.1
+  · simpa using nodup_filter _ (nodup_of_hashes hpn)
+  · intro x hx
+    simp only [List.mem_filter, List.all_eq_true, hasChange_iff] at hx
+    exact isSat_iff.mpr (fun dep hd => .inl (hx.2 dep hd))
+  · intro x hx hs
+    right
+    simp only [List.mem_filter, List.all_eq_true, hasChange_iff]
+    refine ⟨hx, fun dep hd => ?_⟩
+    rcases isSat_iff.mp hs dep hd with h | h
+    · exact h
+    · cases h
+
+/-- `pop_topo_sorted_ready` on a document whose queue has distinct hashes: the released list is a
+    duplicate-free part of the queue, in topological order after the applied changes; the rest of
+    the queue keeps its order; and nothing that is (or became) ready stays behind. -/
+theorem popTopoSortedReady_spec {d : Doc} (hqn : (hashes d.queue).Nodup) (hc : DepsClosed d.applied) :
+    (∀ x ∈ (popTopoSortedReady d).1, x ∈ d.queue) ∧
+    (popTopoSortedReady d).1.Nodup ∧
+    DepsClosed (d.applied ++ (popTopoSortedReady d).1) ∧
+    (popTopoSortedReady d).2.Sublist d.queue ∧
+    ((popTopoSortedReady d).1 ++ (popTopoSortedReady d).2).Perm d.queue ∧
+    (∀ x ∈ (popTopoSortedReady d).2,
+      ∃ dep ∈ x.deps, dep ∉ hashes (d.applied ++ (popTopoSortedReady d).1)) := by
+  obtain ⟨_, h2, h3, h4, h5⟩ := kahnLoop_spec hqn (d.queue.length + 1) _ [] (KInv.init hqn hc)
+    (by simp)
+  simp only [popTopoSortedReady]
+  generalize kahnLoop d d.queue (d.queue.length + 1)
+    (d.queue.filter (fun x => x.deps.all (fun dep => d.hasChange dep))) [] = topo at *
+  have hrest : ∀ x, x ∈ d.queue.filter (fun x => !(topo.any (fun r => r.hash == x.hash))) ↔
+      x ∈ d.queue ∧ x.hash ∉ hashes topo := by
+    intro x
+    simp only [List.mem_filter, Bool.not_eq_true', ← Bool.not_eq_true, any_hash_iff]
+  refine ⟨h2, h3, h4, List.filter_sublist, ?_, ?_⟩
+  · rw [List.perm_ext_iff_of_nodup ?_ (nodup_of_hashes hqn)]
+    · intro a
+      rw [List.mem_append, hrest]
+      constructor
+      · rintro (h | h)
+        · exact h2 a h
+        · exact h.1
+      · intro ha
+        by_cases hm : a.hash ∈ hashes topo
+        · obtain ⟨y, hy, hya⟩ := mem_hashes.mp hm
+          have := hash_inj hqn (h2 y hy) ha hya
+          subst this
+          exact .inl hy
+        · exact .inr ⟨ha, hm⟩
+    · rw [List.nodup_append]
+      refine ⟨h3, nodup_filter _ (nodup_of_hashes hqn), ?_⟩
+      intro a ha b hb hab
+      subst hab
+      exact ((hrest a).mp hb).2 (mem_hashes_of_mem ha)
+  · intro x hx
+    obtain ⟨hxq, hxt⟩ := (hrest x).mp hx
+    have hns : ¬ isSat d topo x = true := by
+      intro hs
+      exact hxt (mem_hashes_of_mem (h5 x hxq hs))
+    rw [isSat_iff] at hns
+    apply Classical.byContradiction
+    intro hcon
+    apply hns
+    intro dep hd
+    apply Classical.byContradiction
+    intro hno
+    apply hcon
+    refine ⟨dep, hd, ?_⟩
+    rw [hashes_append, List.mem_append]
+    exact hno
+
+/-! ## §7 `applyBatch`, `localCommit`, reachable documents -/
+
+theorem Doc.Inv.queue_sublist {d : Doc} (h : d.Inv) {q : List Change} (hq : q.Sublist d.queue) :
+    Doc.Inv { d with queue := q } := by
+  have hs : (d.applied ++ q).Sublist (d.applied ++ d.queue) := hq.append_left _
+  refine ⟨List.Nodup.sublist (hs.map _) h.hashNodup, h.depsClosed, ?_,
+    List.Nodup.sublist (hs.map _) h.seqNodup⟩
+  intro c hc
+  exact h.noneReady c (hq.subset hc)
+
+/-- `ChangeQueue::extend` with a batch accepted by `collectBatch` -/
+theorem Doc.Inv0.extend {d : Doc} (h : d.Inv0) {batch : List Change} (hb : BatchOK d batch) :
+    Doc.Inv0 { d with queue := d.queue ++ batch } := by
+  refine ⟨?_, h.depsClosed, ?_⟩
+  · show (hashes (d.applied ++ (d.queue ++ batch))).Nodup
+    rw [← List.append_assoc, hashes_append, List.nodup_append]
+    refine ⟨h.hashNodup, hb.hashNodup, ?_⟩
+    intro a ha b hb' hab
+    subst hab
+    obtain ⟨c, hc, rfl⟩ := mem_hashes.mp hb'
+    rw [hashes_append] at ha
+    rcases List.mem_append.mp ha with ha | ha
+    · exact (hb.fresh c hc).1 ha
+    · exact (hb.fresh c hc).2 ha
+  · show (actorSeqs (d.applied ++ (d.queue ++ batch))).Nodup
+    rw [← List.append_assoc, actorSeqs_append, List.nodup_append]
+    refine ⟨h.seqNodup, hb.seqNodup, ?_⟩
+    intro a ha b hb' hab
+    subst hab
+    obtain ⟨c, hc, h1, h2⟩ := mem_actorSeqs.mp hb'
+    have hac : a = (c.actor, c.seq) := by rw [h1, h2]
+    subst hac
+    rw [actorSeqs_append] at ha
+    rcases List.mem_append.mp ha with ha | ha
+    · exact (hb.seqFresh c hc).1 ha
+    · exact (hb.seqFresh c hc).2 ha
+
+/-- `pop_topo_sorted_ready` + `add_changes` re-establish the full invariant -/
+theorem popTopo_inv {d : Doc} (h : d.Inv0) :
+    Doc.Inv { applied := d.applied ++ (popTopoSortedReady d).1, queue := (popTopoSortedReady d).2 } := by
+  obtain ⟨_, _, h3, _, h5, h6⟩ := popTopoSortedReady_spec h.queue_nodup h.depsClosed
+  have hperm : ((d.applied ++ (popTopoSortedReady d).1) ++ (popTopoSortedReady d).2).Perm
+      (d.applied ++ d.queue) := by
+    rw [List.append_assoc]; exact h5.append_left _
+  refine ⟨?_, h3, ?_, ?_⟩
+  · exact ((hperm.map _).nodup_iff).mpr h.hashNodup
+  · intro c hc
+    obtain ⟨dep, hd, hn⟩ := h6 c hc
+    exact ⟨dep, hd, hasChange_false_iff.mpr hn⟩
+  · exact ((hperm.map _).nodup_iff).mpr h.seqNodup
+
+theorem applyBatch_of_err {d : Doc} {cs q : List Change} {e : ApplyErr}
+    (h : collectBatch d cs [] = (q, .error e)) : applyBatch d cs = ({ d with queue := q }, .error e) := by
+  simp [applyBatch, h]
+
+theorem applyBatch_of_ok {d : Doc} {cs q batch : List Change}
+    (h : collectBatch d cs [] = (q, .ok batch)) :
+    applyBatch d cs =
+      if (d.queue ++ batch).isEmpty then ({ d with queue := d.queue ++ batch }, .ok ())
+      else ({ applied := d.applied ++ (popTopoSortedReady { d with queue := d.queue ++ batch }).1,
+              queue := (popTopoSortedReady { d with queue := d.queue ++ batch }).2 }, .ok ()) := by
+  simp only [applyBatch, h]
+
+/-- the successful path of `applyBatch`, given the batch `collectBatch` accepted -/
+theorem applyBatch_ok_spec {d : Doc} {cs q batch : List Change} (hinv : d.Inv)
+    (hcb : collectBatch d cs [] = (q, .ok batch)) :
+    ∃ topo, BatchOK d batch ∧ (∀ c ∈ batch, c ∈ cs) ∧
+        (∀ c ∈ cs, c.hash ∈ hashes d.applied ∨ c.hash ∈ hashes d.queue ∨ c.hash ∈ hashes batch) ∧
+        (applyBatch d cs).2 = .ok () ∧
+        (applyBatch d cs).1.applied = d.applied ++ topo ∧
+        (topo ++ (applyBatch d cs).1.queue).Perm (d.queue ++ batch) ∧
+        (applyBatch d cs).1.queue.Sublist (d.queue ++ batch) ∧
+        (applyBatch d cs).1.Inv := by
+  obtain ⟨hb, _, ⟨new, hnew, hsub⟩, hcov⟩ := collectBatch_ok (BatchOK.nil d) hcb
+  simp only [List.nil_append] at hnew
+  subst hnew
+  have hext := hinv.inv0.extend hb
+  rw [applyBatch_of_ok hcb]
+  split
+  · rename_i hemp
+    have hnil : d.queue ++ batch = [] := List.isEmpty_iff.mp hemp
+    refine ⟨[], hb, hsub, hcov, rfl, by simp, by simp, List.Sublist.refl _, ?_⟩
+    refine ⟨hext.hashNodup, hext.depsClosed, ?_, hext.seqNodup⟩
+    intro c hc
+    rw [show ({ d with queue := d.queue ++ batch } : Doc).queue = d.queue ++ batch from rfl, hnil] at hc
+    cases hc
+  · obtain ⟨_, _, _, h4, h5, _⟩ := popTopoSortedReady_spec hext.queue_nodup hext.depsClosed
+    exact ⟨_, hb, hsub, hcov, rfl, rfl, h5, h4, popTopo_inv hext⟩
+
+/-- Everything `applyBatch` does, in one statement.  Either it fails on some offered change `c`
+    with `DuplicateSeqNumber`, the applied changes are untouched and the queue is the old one or
+    the old one pruned; or it succeeds with a batch of new changes, the applied list is extended
+    by a list `topo`, and `topo` with the new queue is a rearrangement of old queue + batch. -/
+theorem applyBatch_cases (d : Doc) (cs : List Change) (hinv : d.Inv) :
+    (∃ c ∈ cs, ∃ q, applyBatch d cs = ({ d with queue := q }, .error (.duplicateSeq c.seq c.actor)) ∧
+        (q = d.queue ∨ q = removeActorBranchFrom d.queue c.actor (c.seq + 1))) ∨
+    (∃ batch topo, BatchOK d batch ∧ (∀ c ∈ batch, c ∈ cs) ∧
+        (∀ c ∈ cs, c.hash ∈ hashes d.applied ∨ c.hash ∈ hashes d.queue ∨ c.hash ∈ hashes batch) ∧
+        (applyBatch d cs).2 = .ok () ∧
+        (applyBatch d cs).1.applied = d.applied ++ topo ∧
+        (topo ++ (applyBatch d cs).1.queue).Perm (d.queue ++ batch) ∧
+        (applyBatch d cs).1.queue.Sublist (d.queue ++ batch) ∧
+        (applyBatch d cs).1.Inv) := by
+  rcases hcb : collectBatch d cs [] with ⟨q, e | batch⟩
+  · left
+    obtain ⟨c, hc, rfl, hq⟩ := collectBatch_err hcb
+    exact ⟨c, hc, q, applyBatch_of_err hcb, hq⟩
+  · right
+    obtain ⟨topo, h⟩ := applyBatch_ok_spec hinv hcb
+    exact ⟨batch, topo, h⟩
+
+/-- a failing call: which error, and what happened to the document (no invariant needed) -/
+theorem applyBatch_err_spec {d d' : Doc} {cs : List Change} {e : ApplyErr}
+    (h : applyBatch d cs = (d', .error e)) :
+    ∃ c ∈ cs, e = .duplicateSeq c.seq c.actor ∧ d'.applied = d.applied ∧
+      (d'.queue = d.queue ∨ d'.queue = removeActorBranchFrom d.queue c.actor (c.seq + 1)) := by
+  rcases hcb : collectBatch d cs [] with ⟨q, e' | batch⟩
+  · rw [applyBatch_of_err hcb] at h
+    simp only [Prod.mk.injEq, Except.error.injEq] at h
+    obtain ⟨rfl, rfl⟩ := h
+    obtain ⟨c, hc, he, hq⟩ := collectBatch_err hcb
+    exact ⟨c, hc, he, rfl, hq⟩
+  · rw [applyBatch_of_ok hcb] at h
+    split at h <;> simp at h
+
+/-- **C38 / C05**: `apply_changes` preserves the invariant whatever is offered and whether or not
+    the call fails (no hypothesis on `cs`: colliding hashes, reused (actor, seq), missing deps and
+    duplicates are all allowed). -/
+theorem applyBatch_inv (d : Doc) (cs : List Change) (hinv : d.Inv) : (applyBatch d cs).1.Inv := by
+  rcases applyBatch_cases d cs hinv with ⟨c, _, q, heq, hq⟩ | ⟨_, _, _, _, _, _, _, _, _, h⟩
+  · rw [heq]
+    rcases hq with rfl | rfl
+    · exact hinv
+    · exact hinv.queue_sublist (removeActorBranchFrom_sublist _ _ _)
+  · exact h
+
+/-- a local commit (`transaction_args` + `commit`): the new change is appended and the queue is
+    pruned of the actor's conflicting branch.  Mirrors `crdt.local` of the driver. -/
+def localCommit (d : Doc) (c : Change) : Doc :=
+  { applied := d.applied ++ [c], queue := removeActorBranchFrom d.queue c.actor c.seq }
+
+/-- what `transaction_args`/`commit` guarantee about the change they produce -/
+structure LocalOK (d : Doc) (c : Change) : Prop where
+  /-- `seq = seq_for_actor + 1` -/
+  seq : c.seq = d.seqForActor c.actor + 1
+  /-- `deps` = the heads (plus the actor's last change): all applied -/
+  deps : ∀ dep ∈ c.deps, d.hasChange dep = true
+  /-- the hash of the freshly made change is new: no known change has it … -/
+  fresh : c.hash ∉ hashes (d.applied ++ d.queue)
+  /-- … and no queued change names it as a dependency (both would need a SHA-256 collision or
+      preimage; hashes are opaque in the model, so this is a hypothesis) -/
+  freshDep : ∀ x ∈ d.queue, c.hash ∉ x.deps
+
+theorem localCommit_inv {d : Doc} {c : Change} (hinv : d.Inv) (hl : LocalOK d c) :
+    (localCommit d c).Inv := by
+  have hsub := removeActorBranchFrom_sublist d.queue c.actor c.seq
+  have hfresh := hl.fresh
+  rw [hashes_append, List.mem_append, not_or] at hfresh
+  refine ⟨?_, ?_, ?_, ?_⟩
+  · show (hashes ((d.applied ++ [c]) ++ removeActorBranchFrom d.queue c.actor c.seq)).Nodup
+    rw [hashes_append, List.nodup_append]
+    refine ⟨?_, List.Nodup.sublist (hsub.map _) hinv.inv0.queue_nodup, ?_⟩
+    · rw [hashes_append, List.nodup_append]
+      refine ⟨hinv.inv0.applied_nodup, by simp [hashes], ?_⟩
+      intro a ha b hb hab
+      simp only [hashes, List.map_cons, List.map_nil, List.mem_singleton] at hb
+      subst hb; subst hab
+      exact hfresh.1 ha
+    · intro a ha b hb hab
+      subst hab
+      have hbq : a ∈ hashes d.queue := (hsub.map _).subset hb
+      rw [hashes_append] at ha
+      rcases List.mem_append.mp ha with ha | ha
+      · exact hinv.inv0.disjoint ha hbq
+      · simp only [hashes, List.map_cons, List.map_nil, List.mem_singleton] at ha
+        subst ha
+        exact hfresh.2 hbq
+  · show DepsClosed (d.applied ++ [c])
+    rw [depsClosed_snoc]
+    exact ⟨hinv.depsClosed, fun dep hd => hasChange_iff.mp (hl.deps dep hd)⟩
+  · intro x hx
+    have hxq : x ∈ d.queue := hsub.subset hx
+    obtain ⟨dep, hd, hn⟩ := hinv.noneReady x hxq
+    refine ⟨dep, hd, ?_⟩
+    rw [hasChange_false_iff] at hn ⊢
+    show dep ∉ hashes (d.applied ++ [c])
+    rw [hashes_append, List.mem_append, not_or]
+    refine ⟨hn, ?_⟩
+    simp only [hashes, List.map_cons, List.map_nil, List.mem_singleton]
+    intro he
+    subst he
+    exact hl.freshDep x hxq hd
+  · show (actorSeqs ((d.applied ++ [c]) ++ removeActorBranchFrom d.queue c.actor c.seq)).Nodup
+    have hold := hinv.seqNodup
+    rw [actorSeqs_append, List.nodup_append] at hold
+    obtain ⟨hna, hnq, hdisj⟩ := hold
+    have hca : (c.actor, c.seq) ∉ actorSeqs d.applied := by
+      intro hm
+      obtain ⟨x, hx, h1, h2⟩ := mem_actorSeqs.mp hm
+      have := le_seqForActor hx
+      simp only at h1 h2
+      rw [h1] at this
+      have := hl.seq
+      omega
+    rw [actorSeqs_append, List.nodup_append]
+    refine ⟨?_, List.Nodup.sublist (hsub.map _) hnq, ?_⟩
+    · rw [actorSeqs_append, List.nodup_append]
+      refine ⟨hna, by simp [actorSeqs], ?_⟩
+      intro a ha b hb hab
+      simp only [actorSeqs, List.map_cons, List.map_nil, List.mem_singleton] at hb
+      subst hb; subst hab
+      exact hca ha
+    · intro a ha b hb hab
+      subst hab
+      rw [actorSeqs_append] at ha
+      rcases List.mem_append.mp ha with ha | ha
+      · exact hdisj a ha a ((hsub.map _).subset hb) rfl
+      · simp only [actorSeqs, List.map_cons, List.map_nil, List.mem_singleton] at ha
+        subst ha
+        obtain ⟨x, hx, h1, h2⟩ := mem_actorSeqs.mp hb
+        simp only at h1 h2
+        exact (mem_removeActorBranchFrom.mp hx).2 (.base (hsub.subset hx) h1 (by omega))
+
+/-- the documents a program can reach: start empty; `apply_changes` with ANY list of changes
+    (successful or failing); local commits -/
+inductive Reachable : Doc → Prop
+  | empty : Reachable Doc.empty
+  | apply {d : Doc} (cs : List Change) : Reachable d → Reachable (applyBatch d cs).1
+  | localCommit {d : Doc} {c : Change} : Reachable d → LocalOK d c → Reachable (localCommit d c)
+
+theorem Reachable.inv {d : Doc} (h : Reachable d) : d.Inv := by
+  induction h with
+  | empty => exact Doc.empty_inv
+  | apply cs _ ih => exact applyBatch_inv _ cs ih
+  | localCommit _ hl ih => exact localCommit_inv ih hl
+
+/-! ## §8 `missing_deps_from` / `get_missing_deps` -/
+
+/-- the hashes the held changes or the given heads need, directly or through other held changes:
+    the hashes of the held changes and the heads themselves, closed under "dep of a held change" -/
+inductive Needed (d : Doc) (hs : List Hash) : Hash → Prop
+  | base {h : Hash} : h ∈ hashes d.queue ++ hs → Needed d hs h
+  | dep {c : Change} {dep : Hash} : Needed d hs c.hash → c ∈ d.queue → dep ∈ c.deps → Needed d hs dep
+
+/-- potential of the DFS: deps (+1) of the queued changes not yet visited -/
+def mWeight : List Change → List Hash → Nat
+  | [], _ => 0
+  | c :: q, seen => (if c.hash ∈ seen then 0 else c.deps.length + 1) + mWeight q seen
+
+theorem foldl_eq_mWeight (q : List Change) (n : Nat) :
+    q.foldl (fun n c => n + c.deps.length + 1) n = n + mWeight q [] := by
+  induction q generalizing n with
+  | nil => simp [mWeight]
+  | cons c q ih => simp only [List.foldl_cons, ih, mWeight, List.not_mem_nil, if_false]; omega
+
+theorem mWeight_mono (q : List Change) (h : Hash) (seen : List Hash) :
+    mWeight q (h :: seen) ≤ mWeight q seen := by
+  induction q with
+  | nil => simp [mWeight]
+  | cons c q ih =>
+    simp only [mWeight, List.mem_cons]
+    by_cases h1 : c.hash ∈ seen <;> by_cases h2 : c.hash = h <;> simp [h1, h2] <;> omega
+
+theorem mWeight_found {q : List Change} {c : Change} {h : Hash} {seen : List Hash}
+    (hc : c ∈ q) (hh : c.hash = h) (hns : h ∉ seen) :
+    mWeight q (h :: seen) + c.deps.length + 1 ≤ mWeight q seen := by
+  induction q with
+  | nil => cases hc
+  | cons x q ih =>
+    simp only [mWeight, List.mem_cons]
+    rcases List.mem_cons.mp hc with rfl | hc'
+    · have := mWeight_mono q h seen
+      simp [hns, hh]; omega
+    · have := ih hc'
+      by_cases h1 : x.hash ∈ seen <;> by_cases h2 : x.hash = h <;> simp [h1, h2] <;> omega
+
+structure MInv (d : Doc) (hs : List Hash) (stack seen missing : List Hash) : Prop where
+  reach : ∀ h ∈ stack ++ seen, Needed d hs h
+  notApplied : ∀ h ∈ seen, h ∉ hashes d.applied
+  missingIff : ∀ h, h ∈ missing ↔ h ∈ seen ∧ h ∉ hashes d.queue
+  closed : ∀ c ∈ d.queue, c.hash ∈ seen →
+    ∀ dep ∈ c.deps, dep ∈ seen ∨ dep ∈ stack ∨ dep ∈ hashes d.applied
+  start : ∀ h ∈ hashes d.queue ++ hs, h ∈ seen ∨ h ∈ stack ∨ h ∈ hashes d.applied
+
+theorem missingLoop_inv {d : Doc} {hs : List Hash} (hqn : (hashes d.queue).Nodup) :
+    ∀ (fuel : Nat) (stack seen missing : List Hash), MInv d hs stack seen missing →
+      stack.length + mWeight d.queue seen < fuel →
+      ∃ seen', MInv d hs [] seen' (missingLoop d fuel stack seen missing) := by
+  intro fuel
+  induction fuel with
+  | zero => intro _ _ _ _ hf; omega
+  | succ fuel ih =>
+    intro stack seen missing m hf
+    cases stack with
+    | nil => exact ⟨seen, by simpa [missingLoop] using m⟩
+    | cons h rest =>
+      simp only [missingLoop]
+      split
+      · -- applied or already seen
+        rename_i hskip
+        simp only [Bool.or_eq_true, hasChange_iff, List.contains_iff_mem] at hskip
+        apply ih
+        · refine ⟨fun x hx => m.reach x ?_, m.notApplied, m.missingIff, ?_, ?_⟩
+          · rcases List.mem_append.mp hx with hx | hx
+            · exact List.mem_append_left _ (List.mem_cons_of_mem _ hx)
+            · exact List.mem_append_right _ hx
+          · intro c hc hcs dep hd
+            rcases m.closed c hc hcs dep hd with h1 | h1 | h1
+            · exact .inl h1
+            · rcases List.mem_cons.mp h1 with rfl | h1
+              · rcases hskip with hs' | hs'
+                · exact .inr (.inr hs')
+                · exact .inl hs'
+              · exact .inr (.inl h1)
+            · exact .inr (.inr h1)
+          · intro x hx
+            rcases m.start x hx with h1 | h1 | h1
+            · exact .inl h1
+            · rcases List.mem_cons.mp h1 with rfl | h1
+              · rcases hskip with hs' | hs'
+                · exact .inr (.inr hs')
+                · exact .inl hs'
+              · exact .inr (.inl h1)
+            · exact .inr (.inr h1)
+        · simp only [List.length_cons] at hf; omega
+      · rename_i hnskip
+        simp only [Bool.or_eq_true, hasChange_iff, List.contains_iff_mem, not_or] at hnskip
+        obtain ⟨hna, hns⟩ := hnskip
+        have hneeded : Needed d hs h := m.reach h (by simp)
+        split
+        · -- a queued change: descend into its deps
+          rename_i c hfind
+          have hcq : c ∈ d.queue := List.mem_of_find?_eq_some hfind
+          have hch : c.hash = h := by simpa using List.find?_some hfind
+          apply ih
+          · refine ⟨?_, ?_, ?_, ?_, ?_⟩
+            · intro x hx
+              rcases List.mem_append.mp hx with hx | hx
+              · rcases List.mem_append.mp hx with hx | hx
+                · exact .dep (hch ▸ hneeded) hcq hx
+                · exact m.reach x (List.mem_append_left _ (List.mem_cons_of_mem _ hx))
+              · rcases List.mem_cons.mp hx with rfl | hx
+                · exact hneeded
+                · exact m.reach x (List.mem_append_right _ hx)
+            · intro x hx
+              rcases List.mem_cons.mp hx with rfl | hx
+              · exact hna
+              · exact m.notApplied x hx
+            · intro x
+              rw [m.missingIff]
+              constructor
+              · rintro ⟨h1, h2⟩; exact ⟨List.mem_cons_of_mem _ h1, h2⟩
+              · rintro ⟨h1, h2⟩
+                rcases List.mem_cons.mp h1 with rfl | h1
+                · exact (h2 (hch ▸ mem_hashes_of_mem hcq)).elim
+                · exact ⟨h1, h2⟩
+            · intro c' hc' hcs dep hd
+              rcases List.mem_cons.mp hcs with hcs | hcs
+              · have : c' = c := hash_inj hqn hc' hcq (by rw [hcs, hch])
+                subst this
+                exact .inr (.inl (List.mem_append_left _ hd))
+              · rcases m.closed c' hc' hcs dep hd with h1 | h1 | h1
+                · exact .inl (List.mem_cons_of_mem _ h1)
+                · rcases List.mem_cons.mp h1 with rfl | h1
+                  · exact .inl List.mem_cons_self
+                  · exact .inr (.inl (List.mem_append_right _ h1))
+                · exact .inr (.inr h1)
+            · intro x hx
+              rcases m.start x hx with h1 | h1 | h1
+              · exact .inl (List.mem_cons_of_mem _ h1)
+              · rcases List.mem_cons.mp h1 with rfl | h1
+                · exact .inl List.mem_cons_self
+                · exact .inr (.inl (List.mem_append_right _ h1))
+              · exact .inr (.inr h1)
+          · have := mWeight_found hcq hch hns
+            simp only [List.length_cons, List.length_append] at hf ⊢
+            omega
+        · -- neither applied nor queued: missing
+          rename_i hfind
+          have hnq : h ∉ hashes d.queue := by
+            intro hm
+            obtain ⟨c, hc, hch⟩ := mem_hashes.mp hm
+            have := List.find?_eq_none.mp hfind c hc
+            simp [hch] at this
+          apply ih
+          · refine ⟨?_, ?_, ?_, ?_, ?_⟩
+            · intro x hx
+              rcases List.mem_append.mp hx with hx | hx
+              · exact m.reach x (List.mem_append_left _ (List.mem_cons_of_mem _ hx))
+              · rcases List.mem_cons.mp hx with rfl | hx
+                · exact hneeded
+                · exact m.reach x (List.mem_append_right _ hx)
+            · intro x hx
+              rcases List.mem_cons.mp hx with rfl | hx
+              · exact hna
+              · exact m.notApplied x hx
+            · intro x
+              simp only [List.mem_cons, m.missingIff]
+              constructor
+              · rintro (rfl | ⟨h1, h2⟩)
+                · exact ⟨.inl rfl, hnq⟩
+                · exact ⟨.inr h1, h2⟩
+              · rintro ⟨rfl | h1, h2⟩
+                · exact .inl rfl
+                · exact .inr ⟨h1, h2⟩
+            · intro c' hc' hcs dep hd
+              rcases List.mem_cons.mp hcs with hcs | hcs
+              · exact (hnq (hcs ▸ mem_hashes_of_mem hc')).elim
+              · rcases m.closed c' hc' hcs dep hd with h1 | h1 | h1
+                · exact .inl (List.mem_cons_of_mem _ h1)
+                · rcases List.mem_cons.mp h1 with rfl | h1
+                  · exact .inl List.mem_cons_self
+                  · exact .inr (.inl h1)
+                · exact .inr (.inr h1)
+            · intro x hx
+              rcases m.start x hx with h1 | h1 | h1
+              · exact .inl (List.mem_cons_of_mem _ h1)
+              · rcases List.mem_cons.mp h1 with rfl | h1
+                · exact .inl List.mem_cons_self
+                · exact .inr (.inl h1)
+              · exact .inr (.inr h1)
+          · have := mWeight_mono d.queue h seen
+            simp only [List.length_cons] at hf
+            omega
+
+/-- **C05**: `get_missing_deps(heads)` lists exactly the hashes that are neither applied nor held
+    and that the held changes or the given heads need, directly or through other held changes. -/
+theorem missing_deps_spec {d : Doc} (hinv : d.Inv0) (hs : List Hash) (h : Hash) :
+    h ∈ d.missingDeps hs ↔ h ∉ hashes d.applied ∧ h ∉ hashes d.queue ∧ Needed d hs h := by
+  unfold Doc.missingDeps
+  simp only [mem_sortHashes]
+  have hstart : d.queue.map (·.hash) ++ hs = hashes d.queue ++ hs := rfl
+  have m0 : MInv d hs (hashes d.queue ++ hs) [] [] := by
+    refine ⟨fun x hx => .base (by simpa using hx), by simp, by simp, by simp, ?_⟩
+    intro x hx; exact .inr (.inl hx)
+  obtain ⟨seen', m⟩ := missingLoop_inv hinv.queue_nodup
+    ((d.queue.map (·.hash) ++ hs).length + d.queue.foldl (fun n c => n + c.deps.length + 1) 0 + 1)
+    (hashes d.queue ++ hs) [] [] m0 (by rw [foldl_eq_mWeight, hstart]; omega)
+  rw [hstart] at m ⊢
+  rw [m.missingIff]
+  constructor
+  · rintro ⟨h1, h2⟩
+    exact ⟨m.notApplied h h1, h2, m.reach h (by simpa using h1)⟩
+  · rintro ⟨h1, h2, h3⟩
+    refine ⟨?_, h2⟩
+    have hall : ∀ x, Needed d hs x → x ∉ hashes d.applied → x ∈ seen' := by
+      intro x hx
+      induction hx with
+      | base hb =>
+        intro hna
+        rcases m.start _ hb with h | h | h
+        · exact h
+        · cases h
+        · exact (hna h).elim
+      | @dep c dep _ hc hd ih =>
+        intro hna
+        have hcs := ih (fun ha => hinv.disjoint ha (mem_hashes_of_mem hc))
+        rcases m.closed c hc hcs dep hd with h | h | h
+        · exact h
+        · cases h
+        · exact (hna h).elim
+    exact hall h h3 h1
+
+theorem missingDeps_sorted (d : Doc) (hs : List Hash) : SortedHashes (d.missingDeps hs) :=
+  sortHashes_sorted _
+
+theorem actorSeq_inj {l : List Change} (h : (actorSeqs l).Nodup) {a b : Change} (ha : a ∈ l)
+    (hb : b ∈ l) (h1 : a.actor = b.actor) (h2 : a.seq = b.seq) : a = b :=
+  inj_of_nodup_map (fun c : Change => (c.actor, c.seq)) h a ha b hb (by rw [h1, h2])
+
+/-! ### re-delivery of known changes is a no-op -/
+
+theorem collectBatch_known {d : Doc} : ∀ {cs : List Change} (batch : List Change),
+    (∀ c ∈ cs, c.hash ∈ hashes (d.applied ++ d.queue)) → collectBatch d cs batch = (d.queue, .ok batch)
+  | [], batch, _ => rfl
+  | c :: cs, batch, hk => by
+    have hc := hk c List.mem_cons_self
+    rw [hashes_append, List.mem_append, ← hasChange_iff, ← queueHas_iff] at hc
+    have : (d.hasChange c.hash || d.queueHas c.hash) = true := by simpa using hc
+    simp only [collectBatch, this, if_true]
+    exact collectBatch_known batch (fun x hx => hk x (List.mem_cons_of_mem _ hx))
+
+theorem popTopoSortedReady_noneReady {d : Doc}
+    (h : ∀ c ∈ d.queue, ∃ dep ∈ c.deps, d.hasChange dep = false) :
+    popTopoSortedReady d = ([], d.queue) := by
+  have hnil : d.queue.filter (fun x => x.deps.all (fun dep => d.hasChange dep)) = [] := by
+    rw [List.filter_eq_nil_iff]
+    intro c hc hall
+    obtain ⟨dep, hd, hf⟩ := h c hc
+    rw [List.all_eq_true] at hall
+    rw [hall dep hd] at hf; cases hf
+  simp [popTopoSortedReady, hnil, kahnLoop]
+
+/-- **C01 ("duplicated") / C38 ("discarded")**: offering changes whose hashes are already known
+    (applied or held) changes nothing at all and succeeds -/
+theorem applyBatch_known {d : Doc} (hinv : d.Inv) {cs : List Change}
+    (hk : ∀ c ∈ cs, c.hash ∈ hashes (d.applied ++ d.queue)) : applyBatch d cs = (d, .ok ()) := by
+  rw [applyBatch_of_ok (collectBatch_known [] hk)]
+  have hd : ({ d with queue := d.queue ++ [] } : Doc) = d := by cases d; simp
+  rw [hd]
+  split
+  · rfl
+  · rw [popTopoSortedReady_noneReady hinv.noneReady]
+    cases d; simp
+
+/-! ## §9 delivery schedules (C01, delivery half) -/
+
+/-- two strictly sorted hash lists with the same members are equal -/
+theorem SortedHashes.ext : ∀ {l₁ l₂ : List Hash}, SortedHashes l₁ → SortedHashes l₂ →
+    (∀ x, x ∈ l₁ ↔ x ∈ l₂) → l₁ = l₂
+  | [], [], _, _, _ => rfl
+  | [], b :: l₂, _, _, h => by have := (h b).mpr List.mem_cons_self; cases this
+  | a :: l₁, [], _, _, h => by have := (h a).mp List.mem_cons_self; cases this
+  | a :: l₁, b :: l₂, h₁, h₂, h => by
+    have hasym : ∀ x y : Hash, bytesLt x y = true → bytesLt y x = true → False := by
+      intro x y hxy hyx
+      have := GraphOrd.bytesLt_trans hxy hyx
+      rw [GraphOrd.bytesLt_irrefl] at this; cases this
+    have am : a ∈ b :: l₂ := (h a).mp List.mem_cons_self
+    have bm : b ∈ a :: l₁ := (h b).mpr List.mem_cons_self
+    have ab : a = b := by
+      rcases List.mem_cons.mp am with rfl | am
+      · rfl
+      · rcases List.mem_cons.mp bm with rfl | bm
+        · rfl
+        · exact (hasym _ _ (List.rel_of_pairwise_cons h₁ bm) (List.rel_of_pairwise_cons h₂ am)).elim
+    subst ab
+    have ht : ∀ x, x ∈ l₁ ↔ x ∈ l₂ := by
+      intro x
+      constructor
+      · intro hx
+        rcases List.mem_cons.mp ((h x).mp (List.mem_cons_of_mem _ hx)) with rfl | hx'
+        · exact (hasym _ _ (List.rel_of_pairwise_cons h₁ hx) (List.rel_of_pairwise_cons h₁ hx)).elim
+        · exact hx'
+      · intro hx
+        rcases List.mem_cons.mp ((h x).mpr (List.mem_cons_of_mem _ hx)) with rfl | hx'
+        · exact (hasym _ _ (List.rel_of_pairwise_cons h₂ hx) (List.rel_of_pairwise_cons h₂ hx)).elim
+        · exact hx'
+    rw [SortedHashes.ext (List.Pairwise.of_cons h₁) (List.Pairwise.of_cons h₂) ht]
+
+/-- a well-formed finite universe of changes (what a set of honestly produced changes satisfies) -/
+structure WF (cs : List Change) : Prop where
+  /-- distinct changes have distinct hashes -/
+  hashNodup : (hashes cs).Nodup
+  /-- distinct changes have distinct (actor, seq) -/
+  seqNodup : (actorSeqs cs).Nodup
+  /-- the universe is closed under dependencies -/
+  depsIn : ∀ c ∈ cs, ∀ dep ∈ c.deps, dep ∈ hashes cs
+  /-- the dependency relation is acyclic.  Hashes are opaque in the model, so this is a
+      hypothesis; for real changes it follows from SHA-256 preimage resistance (a change's hash
+      covers the hashes of its deps). -/
+  acyclic : ∃ rank : Hash → Nat, ∀ c ∈ cs, ∀ dep ∈ c.deps, rank dep < rank c.hash
+  /-- an actor's changes are numbered 1, 2, … and each names its predecessor as a dependency
+      (`transaction_args`: `deps.push(last_hash)`) -/
+  seqChain : ∀ c ∈ cs, c.seq = 1 ∨
+    ∃ p ∈ cs, p.actor = c.actor ∧ p.seq + 1 = c.seq ∧ p.hash ∈ c.deps
+
+/-- run a schedule of `apply_changes` calls (the results are discarded: see `deliver_no_error`) -/
+def deliverFrom (d : Doc) (σ : List (List Change)) : Doc :=
+  σ.foldl (fun d cs => (applyBatch d cs).1) d
+
+def deliverAll (σ : List (List Change)) : Doc := deliverFrom Doc.empty σ
+
+@[simp] theorem deliverFrom_nil (d : Doc) : deliverFrom d [] = d := rfl
+@[simp] theorem deliverFrom_cons (d : Doc) (cs : List Change) (σ : List (List Change)) :
+    deliverFrom d (cs :: σ) = deliverFrom (applyBatch d cs).1 σ := rfl
+theorem deliverFrom_append (d : Doc) (σ τ : List (List Change)) :
+    deliverFrom d (σ ++ τ) = deliverFrom (deliverFrom d σ) τ := by
+  simp [deliverFrom, List.foldl_append]
+
+/-- invariant of a delivery run inside the universe `cs` -/
+structure DInv (cs : List Change) (d : Doc) : Prop where
+  inv : d.Inv
+  sub : ∀ c ∈ d.applied ++ d.queue, c ∈ cs
+
+theorem collectBatch_no_err {d : Doc} {U : List Change}
+    (h1 : ∀ c ∈ U, c.hash ∉ hashes d.applied → c.hash ∉ hashes d.queue →
+      d.hasActorSeq c = false ∧ queueHasActorSeq d.queue c = false)
+    (h2 : ∀ x ∈ U, ∀ c ∈ U, x.actor = c.actor → x.seq = c.seq → x.hash = c.hash) :
+    ∀ (cs batch : List Change), (∀ c ∈ cs, c ∈ U) → (∀ c ∈ batch, c ∈ U) →
+      ∃ b', collectBatch d cs batch = (d.queue, .ok b')
+  | [], batch, _, _ => ⟨batch, rfl⟩
+  | c :: cs, batch, hcs, hb => by
+    have hcU := hcs c List.mem_cons_self
+    have hcs' : ∀ x ∈ cs, x ∈ U := fun x hx => hcs x (List.mem_cons_of_mem _ hx)
+    simp only [collectBatch]
+    split
+    · exact collectBatch_no_err h1 h2 cs batch hcs' hb
+    · rename_i hnskip
+      simp only [Bool.or_eq_true, hasChange_iff, queueHas_iff, not_or] at hnskip
+      obtain ⟨e1, e2⟩ := h1 c hcU hnskip.1 hnskip.2
+      simp only [e1, e2, Bool.false_eq_true, if_false]
+      split
+      · exact collectBatch_no_err h1 h2 cs batch hcs' hb
+      · rename_i hninb
+        split
+        · rename_i hbs
+          exfalso
+          obtain ⟨x, hx, hxa, hxs⟩ := mem_actorSeqs.mp (queueHasActorSeq_iff.mp hbs)
+          apply hninb
+          rw [any_hash_iff]
+          exact mem_hashes.mpr ⟨x, hx, h2 x (hb x hx) c hcU hxa hxs⟩
+        · apply collectBatch_no_err h1 h2 cs (batch ++ [c]) hcs'
+          intro x hx
+          rcases List.mem_append.mp hx with hx | hx
+          · exact hb x hx
+          · simp only [List.mem_singleton] at hx; subst hx; exact hcU
+
+theorem seq_pos {cs : List Change} (wf : WF cs) {c : Change} (hc : c ∈ cs) : 1 ≤ c.seq := by
+  rcases wf.seqChain c hc with h | ⟨p, _, _, h, _⟩ <;> omega
+
+/-- inside a well-formed universe, an applied change has all its actor's earlier changes applied -/
+theorem applied_seq_chain {cs : List Change} (wf : WF cs) {d : Doc} (hd : DInv cs d) :
+    ∀ (n : Nat) (x : Change), x ∈ d.applied → x.seq = n → ∀ m, 1 ≤ m → m ≤ n →
+      ∃ y ∈ d.applied, y.actor = x.actor ∧ y.seq = m := by
+  intro n
+  induction n with
+  | zero => intro x _ _ m h1 h2; omega
+  | succ n ih =>
+    intro x hx hxs m h1 h2
+    by_cases hm : m = n + 1
+    · exact ⟨x, hx, rfl, by omega⟩
+    · have hxc : x ∈ cs := hd.sub x (List.mem_append_left _ hx)
+      rcases wf.seqChain x hxc with h | ⟨p, hp, hpa, hps, hpd⟩
+      · omega
+      · have hph : p.hash ∈ hashes d.applied := hd.inv.depsClosed.deps_applied hx _ hpd
+        obtain ⟨p', hp', hpp⟩ := mem_hashes.mp hph
+        have : p' = p := hash_inj wf.hashNodup (hd.sub p' (List.mem_append_left _ hp')) hp hpp
+        subst this
+        obtain ⟨y, hy, hya, hys⟩ := ih p' hp' (by omega) m h1 (by omega)
+        exact ⟨y, hy, by rw [hya, hpa], hys⟩
+
+theorem deliver_step {cs : List Change} (wf : WF cs) {d : Doc} (hd : DInv cs d)
+    {call : List Change} (hcall : ∀ c ∈ call, c ∈ cs) :
+    (applyBatch d call).2 = .ok () ∧ DInv cs (applyBatch d call).1 ∧
+    (∀ c ∈ d.applied, c ∈ (applyBatch d call).1.applied) ∧
+    (∀ c ∈ d.applied ++ d.queue, c ∈ (applyBatch d call).1.applied ++ (applyBatch d call).1.queue) ∧
+    (∀ c ∈ call, c ∈ (applyBatch d call).1.applied ++ (applyBatch d call).1.queue) := by
+  have h1 : ∀ c ∈ cs, c.hash ∉ hashes d.applied → c.hash ∉ hashes d.queue →
+      d.hasActorSeq c = false ∧ queueHasActorSeq d.queue c = false := by
+    intro c hc hna hnq
+    constructor
+    · cases hh : d.hasActorSeq c
+      · rfl
+      · exfalso
+        simp only [Doc.hasActorSeq, decide_eq_true_eq] at hh
+        have hpos := seq_pos wf hc
+        obtain ⟨x, hx, hxa, hxs⟩ := seqForActor_attained (d := d) (a := c.actor) (by omega)
+        obtain ⟨y, hy, hya, hys⟩ := applied_seq_chain wf hd _ x hx rfl c.seq hpos (by omega)
+        have hyc : y ∈ cs := hd.sub y (List.mem_append_left _ hy)
+        have : y = c := actorSeq_inj wf.seqNodup hyc hc (by rw [hya, hxa]) hys
+        subst this
+        exact hna (mem_hashes_of_mem hy)
+    · cases hh : queueHasActorSeq d.queue c
+      · rfl
+      · exfalso
+        obtain ⟨x, hx, hxa, hxs⟩ := mem_actorSeqs.mp (queueHasActorSeq_iff.mp hh)
+        have hxc : x ∈ cs := hd.sub x (List.mem_append_right _ hx)
+        have : x = c := actorSeq_inj wf.seqNodup hxc hc hxa hxs
+        subst this
+        exact hnq (mem_hashes_of_mem hx)
+  have h2 : ∀ x ∈ cs, ∀ c ∈ cs, x.actor = c.actor → x.seq = c.seq → x.hash = c.hash := by
+    intro x hx c hc ha hs
+    rw [actorSeq_inj wf.seqNodup hx hc ha hs]
+  obtain ⟨batch, hcb⟩ := collectBatch_no_err h1 h2 call [] hcall (by simp)
+  obtain ⟨topo, hb, hbsub, hcov, hok, happ, hperm, _, hinv'⟩ := applyBatch_ok_spec hd.inv hcb
+  have hknown : ∀ c, c ∈ topo ++ (applyBatch d call).1.queue ↔ c ∈ d.queue ++ batch := fun c => hperm.mem_iff
+  have hsub' : ∀ c ∈ (applyBatch d call).1.applied ++ (applyBatch d call).1.queue, c ∈ cs := by
+    intro c hc
+    rw [happ, List.append_assoc] at hc
+    rcases List.mem_append.mp hc with hc | hc
+    · exact hd.sub c (List.mem_append_left _ hc)
+    · rcases List.mem_append.mp ((hknown c).mp hc) with hc | hc
+      · exact hd.sub c (List.mem_append_right _ hc)
+      · exact hcall c (hbsub c hc)
+  have hmono : ∀ c ∈ d.applied ++ d.queue,
+      c ∈ (applyBatch d call).1.applied ++ (applyBatch d call).1.queue := by
+    intro c hc
+    rw [happ, List.append_assoc]
+    rcases List.mem_append.mp hc with hc | hc
+    · exact List.mem_append_left _ hc
+    · exact List.mem_append_right _ ((hknown c).mpr (List.mem_append_left _ hc))
+  refine ⟨hok, ⟨hinv', hsub'⟩, ?_, hmono, ?_⟩
+  · intro c hc; rw [happ]; exact List.mem_append_left _ hc
+  · intro c hc
+    have hex : ∃ y ∈ (applyBatch d call).1.applied ++ (applyBatch d call).1.queue, y.hash = c.hash := by
+      rcases hcov c hc with h | h | h
+      · obtain ⟨y, hy, hyc⟩ := mem_hashes.mp h
+        exact ⟨y, hmono y (List.mem_append_left _ hy), hyc⟩
+      · obtain ⟨y, hy, hyc⟩ := mem_hashes.mp h
+        exact ⟨y, hmono y (List.mem_append_right _ hy), hyc⟩
+      · obtain ⟨y, hy, hyc⟩ := mem_hashes.mp h
+        refine ⟨y, ?_, hyc⟩
+        rw [happ, List.append_assoc]
+        exact List.mem_append_right _ ((hknown y).mpr (List.mem_append_right _ hy))
+    obtain ⟨y, hy, hyc⟩ := hex
+    have : y = c := hash_inj wf.hashNodup (hsub' y hy) (hcall c hc) hyc
+    subst this
+    exact hy
+
+theorem DInv.empty (cs : List Change) : DInv cs Doc.empty := ⟨Doc.empty_inv, by simp [Doc.empty]⟩
+
+theorem deliver_run {cs : List Change} (wf : WF cs) :
+    ∀ (σ : List (List Change)) (d : Doc), DInv cs d → (∀ call ∈ σ, ∀ c ∈ call, c ∈ cs) →
+      DInv cs (deliverFrom d σ) ∧
+      (∀ c ∈ d.applied ++ d.queue, c ∈ (deliverFrom d σ).applied ++ (deliverFrom d σ).queue) ∧
+      (∀ call ∈ σ, ∀ c ∈ call, c ∈ (deliverFrom d σ).applied ++ (deliverFrom d σ).queue)
+  | [], d, hd, _ => ⟨hd, fun c hc => hc, by simp⟩
+  | call :: σ, d, hd, hσ => by
+    obtain ⟨_, hd', _, hmono, hcall⟩ := deliver_step wf hd (hσ call List.mem_cons_self)
+    obtain ⟨h1, h2, h3⟩ := deliver_run wf σ _ hd' (fun k hk => hσ k (List.mem_cons_of_mem _ hk))
+    refine ⟨h1, fun c hc => h2 c (hmono c hc), ?_⟩
+    intro k hk c hc
+    rcases List.mem_cons.mp hk with rfl | hk
+    · exact h2 c (hcall c hc)
+    · exact h3 k hk c hc
+
+/-- no call of a schedule inside a well-formed universe fails -/
+theorem deliver_no_error {cs : List Change} (wf : WF cs) {σ : List (List Change)}
+    (hσ : ∀ call ∈ σ, ∀ c ∈ call, c ∈ cs) {σ₁ σ₂ : List (List Change)} {call : List Change}
+    (hsplit : σ = σ₁ ++ call :: σ₂) : (applyBatch (deliverAll σ₁) call).2 = .ok () := by
+  subst hsplit
+  have h1 := (deliver_run wf σ₁ Doc.empty (DInv.empty cs)
+    (fun k hk => hσ k (List.mem_append_left _ hk))).1
+  exact (deliver_step wf h1 (hσ call (by simp))).1
+
+/-- a complete schedule ends with everything applied and nothing held -/
+theorem deliver_complete {cs : List Change} (wf : WF cs) {σ : List (List Change)}
+    (hσ : ∀ call ∈ σ, ∀ c ∈ call, c ∈ cs) (hall : ∀ c ∈ cs, ∃ call ∈ σ, c ∈ call) :
+    (deliverAll σ).applied.Perm cs ∧ (deliverAll σ).queue = [] := by
+  obtain ⟨hd, _, hknown⟩ := deliver_run wf σ Doc.empty (DInv.empty cs) hσ
+  change DInv cs (deliverAll σ) at hd
+  change ∀ call ∈ σ, ∀ c ∈ call, c ∈ (deliverAll σ).applied ++ (deliverAll σ).queue at hknown
+  obtain ⟨rank, hrank⟩ := wf.acyclic
+  have hnoq : ∀ (n : Nat) (c : Change), c ∈ (deliverAll σ).queue → rank c.hash = n → False := by
+    intro n
+    induction n using Nat.strongRecOn with
+    | _ n ih =>
+      intro c hc hn
+      have hcc : c ∈ cs := hd.sub c (List.mem_append_right _ hc)
+      obtain ⟨dep, hdep, hna⟩ := hd.inv.noneReady c hc
+      rw [hasChange_false_iff] at hna
+      obtain ⟨p, hp, hpd⟩ := mem_hashes.mp (wf.depsIn c hcc dep hdep)
+      obtain ⟨call, hcall, hpc⟩ := hall p hp
+      rcases List.mem_append.mp (hknown call hcall p hpc) with h | h
+      · exact hna (hpd ▸ mem_hashes_of_mem h)
+      · have := hrank c hcc dep hdep
+        exact ih (rank p.hash) (by rw [hpd]; omega) p h rfl
+  have hq : (deliverAll σ).queue = [] := by
+    cases hq : (deliverAll σ).queue with
+    | nil => rfl
+    | cons c q => exact (hnoq _ c (by rw [hq]; exact List.mem_cons_self) rfl).elim
+  refine ⟨?_, hq⟩
+  have happn : (deliverAll σ).applied.Nodup := nodup_of_hashes hd.inv.inv0.applied_nodup
+  rw [List.perm_ext_iff_of_nodup happn (nodup_of_hashes wf.hashNodup)]
+  intro c
+  constructor
+  · intro hc; exact hd.sub c (List.mem_append_left _ hc)
+  · intro hc
+    obtain ⟨call, hcall, hcc⟩ := hall c hc
+    have := hknown call hcall c hcc
+    rw [hq, List.append_nil] at this
+    exact this
+
+/-- **C01 (delivery half)**: two complete schedules over the same universe — any order, any
+    batching, any duplication — end with the same set of applied changes, nothing held, the same
+    heads and the same multiset of operations (hence, by `showDoc_perm` of `Proofs/Spec`, the same
+    visible document). -/
+theorem deliver_any_order {cs : List Change} (wf : WF cs) {σ τ : List (List Change)}
+    (hσ : ∀ call ∈ σ, ∀ c ∈ call, c ∈ cs) (hσall : ∀ c ∈ cs, ∃ call ∈ σ, c ∈ call)
+    (hτ : ∀ call ∈ τ, ∀ c ∈ call, c ∈ cs) (hτall : ∀ c ∈ cs, ∃ call ∈ τ, c ∈ call) :
+    (deliverAll σ).applied.Perm (deliverAll τ).applied ∧
+    (deliverAll σ).queue = [] ∧ (deliverAll τ).queue = [] ∧
+    (deliverAll σ).heads = (deliverAll τ).heads ∧
+    (deliverAll σ).ops.Perm (deliverAll τ).ops := by
+  obtain ⟨p1, q1⟩ := deliver_complete wf hσ hσall
+  obtain ⟨p2, q2⟩ := deliver_complete wf hτ hτall
+  have hp : (deliverAll σ).applied.Perm (deliverAll τ).applied := p1.trans p2.symm
+  have i1 := (deliver_run wf σ Doc.empty (DInv.empty cs) hσ).1.inv.inv0
+  have i2 := (deliver_run wf τ Doc.empty (DInv.empty cs) hτ).1.inv.inv0
+  change (deliverAll σ).Inv0 at i1
+  change (deliverAll τ).Inv0 at i2
+  refine ⟨hp, q1, q2, ?_, hp.flatMap_right _⟩
+  apply SortedHashes.ext (Doc.heads_sorted _) (Doc.heads_sorted _)
+  intro x
+  rw [i1.mem_heads, i2.mem_heads]
+  constructor
+  · rintro ⟨⟨c, hc, hcx⟩, hno⟩
+    exact ⟨⟨c, hp.mem_iff.mp hc, hcx⟩, fun ⟨y, hy, hyx⟩ => hno ⟨y, hp.mem_iff.mpr hy, hyx⟩⟩
+  · rintro ⟨⟨c, hc, hcx⟩, hno⟩
+    exact ⟨⟨c, hp.mem_iff.mpr hc, hcx⟩, fun ⟨y, hy, hyx⟩ => hno ⟨y, hp.mem_iff.mp hy, hyx⟩⟩
+
+/-- **C38 ("rejected")**: a change with an unknown hash that claims the (actor, seq) of a known
+    change is rejected with `DuplicateSeqNumber`; the applied changes are untouched and the queue
+    can only lose entries. -/
+theorem applyBatch_conflict {d : Doc} {c x : Change} (hx : x ∈ d.applied ++ d.queue)
+    (ha : x.actor = c.actor) (hs : x.seq = c.seq) (hnew : c.hash ∉ hashes (d.applied ++ d.queue)) :
+    ∃ q, applyBatch d [c] = ({ d with queue := q }, .error (.duplicateSeq c.seq c.actor)) ∧
+      q.Sublist d.queue := by
+  rw [hashes_append, List.mem_append, not_or, ← hasChange_iff, ← queueHas_iff] at hnew
+  have hskip : (d.hasChange c.hash || d.queueHas c.hash) = false := by
+    simp [hnew.1, hnew.2]
+  by_cases h1 : d.hasActorSeq c = true
+  · refine ⟨removeActorBranchFrom d.queue c.actor (c.seq + 1), ?_, removeActorBranchFrom_sublist _ _ _⟩
+    apply applyBatch_of_err
+    simp [collectBatch, hskip, h1]
+  · have h2 : queueHasActorSeq d.queue c = true := by
+      rcases List.mem_append.mp hx with hx | hx
+      · exfalso
+        apply h1
+        have := le_seqForActor hx
+        simp only [Doc.hasActorSeq, decide_eq_true_eq]
+        rw [← ha, ← hs]; exact this
+      · exact queueHasActorSeq_iff.mpr (mem_actorSeqs.mpr ⟨x, hx, ha, hs⟩)
+    refine ⟨d.queue, ?_, List.Sublist.refl _⟩
+    apply applyBatch_of_err
+    simp [collectBatch, hskip, h1, h2]
+
+deriving instance DecidableEq for Doc
+
+/-! ## example data for the non-vacuity checks in `Props/` -/
+namespace Ex
+
+def putOp (ctr : Nat) (actor : Bytes) (v : Int) (pred : List OpId) : Op :=
+  ⟨⟨ctr, actor⟩, .root, .map [107], false, .put (.int v), pred⟩
+
+/-- a change nobody has yet -/
+def m0 : Change := ⟨[0], [0xF], 1, 1, [], [putOp 1 [0xF] 5 []]⟩
+/-- root of a diamond -/
+def a1 : Change := ⟨[1], [0xA], 1, 1, [], [putOp 1 [0xA] 10 []]⟩
+def b1 : Change := ⟨[2], [0xB], 1, 2, [[1]], [putOp 2 [0xB] 20 [⟨1, [0xA]⟩]]⟩
+def c1 : Change := ⟨[3], [0xC], 1, 2, [[1]], [putOp 2 [0xC] 30 [⟨1, [0xA]⟩]]⟩
+/-- joins the diamond -/
+def b2 : Change := ⟨[4], [0xB], 2, 3, [[2], [3]], [putOp 3 [0xB] 40 [⟨2, [0xB]⟩, ⟨2, [0xC]⟩]]⟩
+/-- depends on the join and on `m0` -/
+def e1 : Change := ⟨[5], [0xE], 1, 4, [[4], [0]], [putOp 4 [0xE] 50 [⟨3, [0xB]⟩]]⟩
+def e2 : Change := ⟨[6], [0xE], 2, 5, [[5]], [putOp 5 [0xE] 60 [⟨4, [0xE]⟩]]⟩
+/-- a different change claiming (actor B, seq 1) -/
+def b1' : Change := ⟨[7], [0xB], 1, 2, [[1]], [putOp 2 [0xB] 21 [⟨1, [0xA]⟩]]⟩
+/-- actor B, seq 3, waiting for a hash nobody has -/
+def b3 : Change := ⟨[8], [0xB], 3, 9, [[4], [99]], []⟩
+
+def allChanges : List Change := [m0, a1, b1, c1, b2, e1, e2]
+
+theorem allChanges_wf : WF allChanges :=
+  ⟨by decide, by decide, by decide, ⟨fun h => (h.headD 0).toNat, by decide⟩, by decide⟩
+
+/-- everything but `m0` delivered in one call, out of order: the diamond is applied, `e1`/`e2` held -/
+def doc1 : Doc := (applyBatch Doc.empty [e2, b2, e1, b1, c1, a1]).1
+
+theorem doc1_reachable : Reachable doc1 := .apply _ .empty
+
+/-- `doc1` after `b3` arrived as well (held: one of its deps is unknown) -/
+def doc2 : Doc := (applyBatch doc1 [b3]).1
+
+theorem doc2_reachable : Reachable doc2 := .apply _ doc1_reachable
+
+end Ex
 end AmVerif.Crdt
